@@ -71,7 +71,7 @@ def close(a, b, rel=1e-13):
     return a == b or abs(a - b) <= rel * max(abs(a), abs(b))
 
 
-def same(py, model, rel=1e-13):
+def same(py, model, rel=0.0):
     """Compare a canonical string of the implementation with one of the model."""
     if py.startswith("err") or model.startswith("err"):
         return py == model
